@@ -699,19 +699,28 @@ fn front_door_case(rng: &mut Rng, rep: &mut Report) {
     let verts: Vec<Vertex<ClipVec, Vec3>> = sc.cs.verts.iter().map(|(p, a)| vertex(ClipVec::from(*p), *a)).collect();
     let tris: Vec<Tri<usize>> = sc.cs.tris.iter().map(|t| Tri(*t)).collect();
     let fs = |f: Frag<Vec3>| Some(pack(f.var.0[1].to_bits()));
-    // reference: render()
+    // reference: render(); the Batch goes to a Framebuf or, every other
+    // case, to a colour-only buffer
+    let col_only = rng.bool();
     let mut a = sc.canvas();
-    if let Err(m) = render_clip(&sc.cs, &sc.cs.tris, fs, &ctx, to_screen, &mut a, Tk::FbOwned) {
+    if let Err(m) = render_clip(&sc.cs, &sc.cs.tris, fs, &ctx, to_screen, &mut a, if col_only { Tk::ColOwned } else { Tk::FbOwned }) {
         rep.violation("render.panic", format!("render() panicked: {m}"), sc.json());
         return;
     }
     // Batch
     let mut bcv = sc.canvas();
     let res = catch(|| {
-        let mut fb = Framebuf { color_buf: &mut bcv.col, depth_buf: &mut bcv.dep };
         let shader = Shader::new(|v: Vertex<ClipVec, Vec3>, _: ()| v, fs);
-        Batch::new().faces(&tris).vertices(&verts).uniform(()).shader(shader).viewport(to_screen).target(&mut fb).context(&ctx).render();
+        if col_only {
+            Batch::new().faces(&tris).vertices(&verts).uniform(()).shader(shader).viewport(to_screen).target(&mut bcv.col).context(&ctx).render();
+        } else {
+            let mut fb = Framebuf { color_buf: &mut bcv.col, depth_buf: &mut bcv.dep };
+            Batch::new().faces(&tris).vertices(&verts).uniform(()).shader(shader).viewport(to_screen).target(&mut fb).context(&ctx).render();
+        }
     });
+    if col_only {
+        rep.count("front_door.batch_on_colour_only_target");
+    }
     if let Err(m) = res {
         rep.violation("render.panic", format!("Batch::render panicked: {m}"), sc.json());
         return;
